@@ -156,6 +156,11 @@ func renderListing(funcs []function, i386 bool, table map[int]string, r *rand.Ra
 }
 
 func genFunctions(r *rand.Rand, nf int, table map[int]string) []function {
+	return genFunctionsOpt(r, nf, table, true)
+}
+
+// genFunctionsOpt: allowHuge=false keeps every function small (bases of the truncation and mutation sweeps).
+func genFunctionsOpt(r *rand.Rand, nf int, table map[int]string, allowHuge bool) []function {
 	var nums []int
 	for n := range table {
 		nums = append(nums, n)
@@ -179,8 +184,8 @@ func genFunctions(r *rand.Rand, nf int, table map[int]string) []function {
 			f.Name = fmt.Sprintf("github.com/x/y.(*T).Method%d(SB)", fi)
 		}
 		nItems := r.Intn(12)
-		if r.Intn(60) == 0 {
-			nItems = 3000 + r.Intn(9000) // a huge function (thousands of lines without marker)
+		if allowHuge && r.Intn(200) == 0 {
+			nItems = 4000 + r.Intn(2500) // a huge function (thousands of lines without marker; more than any fixed-size window)
 		}
 		orphanFirst := r.Intn(6) == 0
 		if r.Intn(10) == 0 {
@@ -357,7 +362,7 @@ func c16() {
 	// (0) calls for other architectures interleaved with the judged ones (same process): they must not influence
 	// what later x86_64/i386 extractions report
 	for w := 0; w < 64; w++ {
-		txt, _ := renderListing(genFunctions(r0, 4, tables["x86_64"]), false, tables["x86_64"], r0)
+		txt, _ := renderListing(genFunctionsOpt(r0, 4, tables["x86_64"], false), false, tables["x86_64"], r0)
 		add(&c16Case{kind: "other-arch-call", arch: []string{"x32", "arm", "x32", "i386"}[w%4], text: []byte(txt)})
 	}
 	// (1) model-generated listings, with function-boundary prefixes
@@ -388,7 +393,7 @@ func c16() {
 		add(&c16Case{kind: "model-size-extreme", arch: "x86_64", text: []byte(text), exp: exp, hasExp: true, numOnly: usesHeaderVariants(funcs)})
 	}
 	// (2) hostile lines
-	base, _ := renderListing(genFunctions(r0, 6, tables["x86_64"]), false, tables["x86_64"], r0)
+	base, _ := renderListing(genFunctionsOpt(r0, 6, tables["x86_64"], false), false, tables["x86_64"], r0)
 	hostile := []string{}
 	marker := "TEXT main.f(SB) /src/a.go"
 	for k := 0; k <= len(marker); k++ {
@@ -422,14 +427,14 @@ func c16() {
 	add(&c16Case{kind: "directory", arch: "x86_64", isDir: true, mustError: true})
 	add(&c16Case{kind: "directory", arch: "i386", isDir: true, mustError: true})
 	// (3) truncation of a valid listing at every byte offset (short) / line boundary (long)
-	short, _ := renderListing(genFunctions(r0, 3, tables["x86_64"]), false, tables["x86_64"], r0)
+	short, _ := renderListing(genFunctionsOpt(r0, 3, tables["x86_64"], false), false, tables["x86_64"], r0)
 	for k := 0; k <= len(short); k++ {
 		if !run.Thorough() && k%3 != 0 {
 			continue
 		}
 		add(&c16Case{kind: "truncated-byte", arch: "x86_64", text: []byte(short[:k])})
 	}
-	longL, _ := renderListing(genFunctions(r0, 60, tables["i386"]), true, tables["i386"], r0)
+	longL, _ := renderListing(genFunctionsOpt(r0, 60, tables["i386"], false), true, tables["i386"], r0)
 	off := 0
 	for _, l := range strings.SplitAfter(longL, "\n") {
 		off += len(l)
@@ -440,7 +445,7 @@ func c16() {
 	for i := 0; i < nMut; i++ {
 		r := caseRand(run, 5000000+i)
 		a := []string{"x86_64", "i386"}[i%2]
-		text, _ := renderListing(genFunctions(r, 1+r.Intn(5), tables[a]), a == "i386", tables[a], r)
+		text, _ := renderListing(genFunctionsOpt(r, 1+r.Intn(5), tables[a], false), a == "i386", tables[a], r)
 		b := []byte(text)
 		for m := 0; m < 1+r.Intn(8) && len(b) > 0; m++ {
 			p := r.Intn(len(b))
